@@ -271,6 +271,9 @@ def topology_kwargs(mesh, dialect):
         kw["face_node_connectivity"] = mesh.conn(fill=fill, start=d["start"], dtype=dtype)
         kw["fill_value"] = fill
         kw["start_index"] = d["start"]
+    if d.get("conn_order") == "F":
+        # the memory layout of a table that was built transposed (n_max_face_nodes, n_face)
+        kw["face_node_connectivity"] = np.asfortranarray(kw["face_node_connectivity"])
     sc = float(d["xyz_scale"])
     extra = d["extra"]
     if "node_xyz" in extra:
@@ -335,6 +338,32 @@ def ugrid_dataset(mesh, dialect):
         dims=["nMesh_face", "nMaxMesh_face_nodes"],
         attrs={"cf_role": "face_node_connectivity", "start_index": np.int32(d["start"]), "_FillValue": dtype(fill)},
     )
+    # a source that already uses the library's own index dtype and fill value (readers may then
+    # keep the caller's array instead of converting it)
+    std = bool(d.get("std_fill")) and dtype is np.int64 and d["start"] == 0
+    if std:
+        ds["Mesh_face_nodes"] = xr.DataArray(
+            mesh.conn(fill=M.FILL, start=0, dtype=np.int64),
+            dims=["nMesh_face", "nMaxMesh_face_nodes"],
+            attrs={"cf_role": "face_node_connectivity", "start_index": np.int32(0), "_FillValue": np.int64(M.FILL)},
+        )
+    if d.get("ugrid_edges"):
+        pairs = mesh.edge_pairs()
+        pairs = pairs[1::2] + pairs[0::2]
+        en = np.array(pairs, dtype=dtype) + d["start"]
+        if d["edge_flip"]:
+            en[::2] = en[::2, ::-1]
+        ds["Mesh_edge_nodes"] = xr.DataArray(
+            en,
+            dims=["nMesh_edge", "Two"],
+            attrs={"cf_role": "edge_node_connectivity", "start_index": np.int32(d["start"]), "_FillValue": np.int64(M.FILL) if std else dtype(fill)},
+        )
+        ds["mesh"].attrs["edge_node_connectivity"] = "Mesh_edge_nodes"
+        ds["mesh"].attrs["edge_dimension"] = "nMesh_edge"
+    if d.get("as_coords"):
+        # node positions held as coordinate variables (what a CF `coordinates` attribute on a data
+        # variable, or xr.Dataset(coords=...), produces)
+        ds = ds.set_coords(["Mesh_node_x", "Mesh_node_y"])
     return ds
 
 
